@@ -153,6 +153,26 @@ pub fn gen(out: &mut Out, thorough: bool, seed: u64) {
         ms.push(format!("GET / HTTP/1.1{}", line_end).into_bytes());
     }
     for m in &ms { add(&mut cases, "p_req", m, true); }
+    // the VALUES of the fields the parser interprets itself (addresses, lengths, cookies …): every string of up to 3 tokens
+    // over the separators and brackets such values are made of, a multi-byte character and a few atoms
+    {
+        const VT: &[&str] = &["[", "]", ":", ",", " ", "1", ".", "\u{e9}", "::1", "=", ";", "4711", "\t", "-", "+"];
+        let mut vals: Vec<String> = vec![String::new()];
+        let mut layer: Vec<String> = vec![String::new()];
+        for _ in 0..(if thorough { 4 } else { 3 }) {
+            let mut next = Vec::new();
+            for p in &layer { for t in VT { next.push(format!("{}{}", p, t)); } }
+            vals.extend(next.iter().cloned());
+            layer = next;
+        }
+        for name in ["X-Forwarded-For", "Cookie", "Content-Length", "Host", "Connection", "Forwarded", "Upgrade"] {
+            for v in &vals {
+                // trailing blanks are trimmed by nobody: keep them, the parser must survive them
+                let req = format!("GET / HTTP/1.1\r\n{}: {}\r\n\r\n", name, v);
+                add(&mut cases, "p_req", req.as_bytes(), false);
+            }
+        }
+    }
     // ---- response parser
     let resp_tokens: &[&[u8]] = &[b"HTTP/1.1", b" ", b"200", b"OK", b"\r", b"\n", b":", b"a", b"Transfer-Encoding: chunked\r\n", b"Content-Length", b"5", b"\xe2\x82\xac"];
     for s in all_token_strings(resp_tokens, depth) { add(&mut cases, "p_resp", &s, true); }
